@@ -38,7 +38,7 @@ FitsS16(v) == v >= -32768 /\ v <= 32767
 
 Sub(s, a, b) == IF a > b THEN << >> ELSE SubSeq(s, a, b)      \* 1-based inclusive
 Drop(s, n)   == Sub(s, n + 1, Len(s))
-Take(s, n)   == Sub(s, 1, n)
+Take(s, n)   == Sub(s, 1, IF n > Len(s) THEN Len(s) ELSE n)
 
 RECURSIVE Flatten(_)
 Flatten(ss) == IF ss = << >> THEN << >> ELSE Head(ss) \o Flatten(Tail(ss))
